@@ -1704,6 +1704,48 @@ def _eval_model(ctx, scratch, spec, stream='model'):
                       '(max rel %.3g)' % float(np.max(np.abs(np.asarray(res[1]) - np.asarray(res2[1])) / np.abs(res[1]))
                                                if np.shape(res[1]) == np.shape(res2[1]) else float('nan')), case)
         ok = False
+    if ok:
+        ok = second_generation(ctx, scratch, m2, res, f1, case, culprit or label, band) and ok
+    return ok
+
+
+def second_generation(ctx, scratch, m2, res, f1, case, label, band):
+    """the rebuilt model is written and reloaded once more (re-running from an output file, then from that run's output):
+    what the loader hands to the constructors (numpy arrays, numpy scalars, decoded strings) must be written back as
+    faithfully as what the user handed over"""
+    from taurex.output.hdf5 import HDF5Output
+    from taurex.util.hdf5 import taurex_hdf5_to_model
+    fn2 = scratch.path()
+    ctx.bucket('model:second-generation')
+    try:
+        with HDF5Output(fn2) as o:
+            m2.write(o)
+        m3 = taurex_hdf5_to_model(fn2)
+        m3.build()
+        res3 = m3.model()
+    except Exception as e:  # noqa
+        ctx.violation('second-generation-raises:' + label, 'writing / reloading the REBUILT model raised %r' % (e,), case)
+        scratch.remove(fn2)
+        return False
+    scratch.remove(fn2)
+    ok = True
+    f3 = {k: v[2]() for k, v in m3.fittingParameters.items()}
+    if sorted(f3) != sorted(f1):
+        ctx.violation('second-generation-fitting-names', 'fitting parameters differ after the second round trip: %r'
+                      % sorted(set(f1) ^ set(f3)), case)
+        ok = False
+    for k in sorted(set(f1) & set(f3)):
+        if not values_equal(f1[k], f3[k]) and not (unset(f1[k]) and unset(f3[k])):
+            ctx.violation('second-generation-fitparam:' + k, 'fitting parameter %s was %r, after two round trips %r'
+                          % (k, f1[k], f3[k]), case)
+            ok = False
+    same = values_equal(res[0], res3[0], rel=0.0) and np.shape(res[1]) == np.shape(res3[1]) and \
+        C.close(np.asarray(res[1]).ravel(), np.asarray(res3[1]).ravel(), rel=1e-10, abs_=band)
+    ctx.disagreements_checked += 1
+    if not same:
+        ctx.violation('second-generation-spectrum:' + label, 'the model rebuilt from the output of a rebuilt model produces a '
+                      'different spectrum', case)
+        ok = False
     return ok
 
 
